@@ -1,15 +1,28 @@
 ----------------------------- MODULE MC_Lattice -----------------------------
 EXTENDS LatticeWalk
 Unlimited == -1
-NoDev == [noWrap |-> FALSE, noOverlapTest |-> FALSE, neighboursExempt |-> FALSE]
+NoDev == [noWrap |-> FALSE, noOverlapTest |-> FALSE, neighboursExempt |-> FALSE, noForceTest |-> FALSE, staleNeighbours |-> FALSE]
 DevNeighbours == [NoDev EXCEPT !.neighboursExempt = TRUE]
-NoRings == {}
-Ring1 == {1}
 DevNoWrap == [NoDev EXCEPT !.noWrap = TRUE]
 DevNoOverlap == [NoDev EXCEPT !.noOverlapTest = TRUE]
-Chains2x3 == <<3, 3>>
-Chains3x2 == <<2, 2, 2>>
-Chains43 == <<4, 3>>
+DevNoForce == [NoDev EXCEPT !.noForceTest = TRUE]
+DevStale == [NoDev EXCEPT !.staleNeighbours = TRUE]
+\* one system built in a fresh process
+One(ch, cl) == << [chains |-> ch, closed |-> cl, stars |-> {}] >>
+H2x3 == One(<<3, 3>>, {})
+H2x3r == One(<<3, 3>>, {1})
+H3x2 == One(<<2, 2, 2>>, {})
+H43 == One(<<4, 3>>, {})
+\* histories of two systems built in one process: the molecule names C1, C2 are used again with another residue graph,
+\* another length and another number of molecules
+Ring(n) == [chains |-> <<n>>, closed |-> {1}, stars |-> {}]
+Star(n) == [chains |-> <<n>>, closed |-> {}, stars |-> {1}]
+Lin(ch) == [chains |-> ch, closed |-> {}, stars |-> {}]
+HRingChain == << Ring(3), Lin(<<3, 2>>) >>
+HRingChain1 == << Ring(3), Lin(<<3>>) >>
+HStarChain == << Star(4), Lin(<<4>>) >>
+HChainStar == << Lin(<<3, 2>>), Star(4) >>
+HChainRing == << Lin(<<4>>), Ring(3) >>
 Grid2 == {<<0,0,0>>, <<1,1,0>>, <<1,0,1>>}
 Grid3 == {<<0,0,0>>, <<2,2,2>>, <<1,0,2>>}
 Bundle6 == <<1, 2, 3, 4, 5, 6>>
